@@ -73,6 +73,8 @@ def main():
         require_tlc_ok(res, cfg)
         run.add_tlc(res, f"{cfg}: ConstantReproduced Linear Between NonNegative ZeroIffEmpty on every subset of classes")
         cases = [c for c in res.cases if isinstance(c, dict) and "pop" in c]
+        table = [c["table"] for c in cases if c.get("table")]
+        table = table[0] if table else None
         if not run.quick and kernel == "sinc4":
             # 2^18 subsets: replay a seeded 20 000 of them (TLC checked them all)
             sel = rng.choice(len(cases), 20000, replace=False)
@@ -107,7 +109,20 @@ def main():
                     fcs = np.array([fc])
                     got = both(name, f, spec, fcs, bw)[:, 0]
                     exp = []
-                    for r in c["res"]:
+                    cres = c["res"]
+                    if not cres:
+                        # large alphabet: TLC enumerated the case, the sums are formed here in exact fractions from the
+                        # class table exported by the specification
+                        from fractions import Fraction
+                        cres = []
+                        for row in (A, B, C, D):
+                            cen = [i for i in pop if table[i - 1]["centre"]]
+                            con = [i for i in pop if not table[i - 1]["centre"] and table[i - 1]["tier"] == "P"]
+                            wsum = sum((Fraction(*table[i - 1]["w"]) for i in con), Fraction(0))
+                            acc = sum((Fraction(*table[i - 1]["w"]) * Fraction(int(row[i - 1])) for i in con), Fraction(0))
+                            cres.append(dict(c=1 if cen else 0, s0=float(row[cen[0] - 1]) if cen else 0.0,
+                                             A=[acc.numerator, acc.denominator], B=[wsum.numerator, wsum.denominator]))
+                    for r in cres:
                         num = r["c"] * PI4 * r["s0"] + r["A"][0] / r["A"][1] if kernel == "sinc4" else r["c"] * r["s0"] + r["A"][0] / r["A"][1]
                         den = r["c"] * PI4 + r["B"][0] / r["B"][1] if kernel == "sinc4" else r["c"] + r["B"][0] / r["B"][1]
                         exp.append(0.0 if den == 0 else num / den)
@@ -119,7 +134,7 @@ def main():
                         j = [k for k, lab in enumerate(labels) if lab == 14][0]
                         rws = [A[j], B[j], C[j], D[j]]
                         exp2 = []
-                        for r, s_ in zip(c["res"], rws):
+                        for r, s_ in zip(cres, rws):
                             num = r["c"] * s_ * 0 + r["c"] * r["s0"] + (r["A"][0] / r["A"][1]) / PI4 + w * s_
                             den = r["c"] + (r["B"][0] / r["B"][1]) / PI4 + w
                             exp2.append(num / den)
